@@ -42,7 +42,7 @@ pub fn run(ctx: &mut Ctx) {
     for (n, ok) in r2::selftest() {
         ctx.selftest(&n, ok);
     }
-    ctx.require(&["annex_kat", "fixed_nonce_exact", "free_nonce", "ref_made_accepted", "openssl_made_accepted", "id_default", "id_explicit", "id_empty", "id_8191", "id_too_long", "id_non_ascii_utf8", "msg_empty", "edge_key", "random_key", "e_ge_n"]);
+    ctx.require(&["annex_kat", "fixed_nonce_exact", "free_nonce", "ref_made_accepted", "openssl_made_accepted", "id_default", "id_explicit", "id_empty", "id_8191", "id_too_long", "id_non_ascii_utf8", "msg_empty", "edge_key", "random_key", "e_ge_n", "key_from_constructor", "key_from_gen_keypair", "key_with_jacobian_public_point"]);
     let c = r2::curve();
 
     // --- Annex example through the library with the nonce injected
@@ -103,11 +103,12 @@ pub fn run(ctx: &mut Ctx) {
             ctx.class("msg_empty");
         }
         let msg = p.bytes(mlen);
-        let k = if i % 7 == 0 { r2::curve().n.clone() - 1u32 - BigUint::from(i % 3) } else { rand_scalar(&mut p, &c.n) };
+        let k = if i % 7 == 0 { r2::curve().n.clone() - 1u32 - BigUint::from(i % 3) } else if i % 11 == 3 { BigUint::from(1 + i % 4) } else { rand_scalar(&mut p, &c.n) };
+        let how = i / 3;
         match i % 3 {
-            0 => fixed_case(ctx, &d, id_opt, &id_str, &msg, &k, "sweep"),
-            1 => free_case(ctx, &d, id_opt, &id_str, &msg, "sweep"),
-            _ => ref_made_case(ctx, &d, id_opt, &id_str, &msg, &k),
+            0 => fixed_case_how(ctx, &d, id_opt, &id_str, &msg, &k, "sweep", how),
+            1 => free_case_how(ctx, &d, id_opt, &id_str, &msg, "sweep", how),
+            _ => ref_made_case(ctx, &d, id_opt, &id_str, &msg, &k, how),
         }
         if i % 1000 == 0 {
             ctx.sample(json!({"d": hex::encode(r2::b32(&d)), "id": if id_str.len() > 40 { format!("{} chars", id_str.len()) } else { id_str.clone() }, "msg_len": mlen, "mode": (["fixed nonce", "free nonce", "reference-made"][(i % 3) as usize])}));
@@ -183,7 +184,13 @@ fn wit(d: &BigUint, id: &str, msg: &[u8], k: Option<&BigUint>) -> serde_json::Va
 
 /// injected nonce -> byte-exact (r||s); the result must verify in library and reference
 fn fixed_case(ctx: &mut Ctx, d: &BigUint, id: Option<&'static str>, id_str: &str, msg: &[u8], k: &BigUint, cls: &str) {
-    let Some(sk) = lib_sk(d) else {
+    fixed_case_how(ctx, d, id, id_str, msg, k, cls, 0)
+}
+
+fn fixed_case_how(ctx: &mut Ctx, d: &BigUint, id: Option<&'static str>, id_str: &str, msg: &[u8], k: &BigUint, cls: &str, how: u64) {
+    ctx.class(provenance(how));
+    let mut pp = Prng::new(how, "prov");
+    let Some((_pk, sk)) = lib_keys(d, how, &mut pp) else {
         ctx.violation("Sm2PrivateKey::new:d-in-[1,n-2]:not-ok", json!({"d": hex::encode(r2::b32(d))}));
         return;
     };
@@ -215,6 +222,12 @@ fn fixed_case(ctx: &mut Ctx, d: &BigUint, id: Option<&'static str>, id_str: &str
                 return;
             }
             check_accepts(ctx, &sk.public_key, id, id_str, msg, &sig, d, cls);
+            // the relying party's key object: decoded from the encoded public key
+            if let Outcome::Ret(b) = guard(|| sk.public_key.to_bytes(false)) {
+                if let Outcome::Ret(Ok(pk2)) = guard(|| gm_sm2::key::Sm2PublicKey::new(&b)) {
+                    check_accepts(ctx, &pk2, id, id_str, msg, &sig, d, &format!("{}/reencoded-public-key", cls));
+                }
+            }
         }
         o => ctx.violation(&format!("sign:{}:{}", cls, oc(&o)), json!({"case": wit(d, id_str, msg, Some(k)), "outcome": format!("{:?}", o.class())})),
     }
@@ -230,8 +243,14 @@ fn check_accepts(ctx: &mut Ctx, lpk: &gm_sm2::key::Sm2PublicKey, id: Option<&'st
 
 /// free nonce: range, self-verify, reference verify, nonce used == nonce drawn
 fn free_case(ctx: &mut Ctx, d: &BigUint, id: Option<&'static str>, id_str: &str, msg: &[u8], cls: &str) {
+    free_case_how(ctx, d, id, id_str, msg, cls, 0)
+}
+
+fn free_case_how(ctx: &mut Ctx, d: &BigUint, id: Option<&'static str>, id_str: &str, msg: &[u8], cls: &str, how: u64) {
     let c = r2::curve();
-    let Some(sk) = lib_sk(d) else {
+    ctx.class(provenance(how));
+    let mut pp = Prng::new(how + 7, "prov");
+    let Some((_pk, sk)) = lib_keys(d, how, &mut pp) else {
         ctx.violation("Sm2PrivateKey::new:d-in-[1,n-2]:not-ok", json!({"d": hex::encode(r2::b32(d))}));
         return;
     };
@@ -268,11 +287,14 @@ fn free_case(ctx: &mut Ctx, d: &BigUint, id: Option<&'static str>, id_str: &str,
 }
 
 /// signature made by the reference signer must be accepted by the library
-fn ref_made_case(ctx: &mut Ctx, d: &BigUint, id: Option<&'static str>, id_str: &str, msg: &[u8], k: &BigUint) {
+fn ref_made_case(ctx: &mut Ctx, d: &BigUint, id: Option<&'static str>, id_str: &str, msg: &[u8], k: &BigUint, how: u64) {
     let Some((r, s)) = r2::sign(d, id_str.as_bytes(), msg, k) else { return };
     let pk = r2::mul(d, &r2::g()).unwrap();
-    // public key built from the reference's point, not from the library's own key derivation
-    let Some(lpk) = lib_pk(&pk) else {
+    // public key object: decoded from the reference's point, from gen_keypair, or a Jacobian representation
+    ctx.class(provenance(how));
+    let mut pp = Prng::new(how + 13, "prov");
+    let lpk = if how % 3 == 0 { lib_pk(&pk) } else { lib_keys(d, how, &mut pp).map(|x| x.0) };
+    let Some(lpk) = lpk else {
         ctx.violation("Sm2PublicKey::new:valid-point:not-ok", json!({"pk": hex::encode(r2::encode(&pk, false))}));
         return;
     };
